@@ -209,10 +209,53 @@ where
         write_set: &mut HashSet<LocationAndType>,
     ) {
         write_set.insert(location.clone());
+        #[cfg(grevm_verif)]
+        let verif_ev = (crate::verif::loc_id(&location), crate::verif::val_id(&value));
         self.mv_memory
             .entry(location)
             .or_default()
             .insert(self.version.txid, MemoryEntry::new(self.version.incarnation, value, estimate));
+        #[cfg(grevm_verif)]
+        crate::verif::p5(
+            "publish",
+            self.version.txid as i64,
+            verif_ev.0,
+            self.version.incarnation as i64,
+            verif_ev.1,
+            estimate as i64,
+        );
+    }
+
+    /// Report one multi-version lookup (verification hook; `estimate` is re-read from the entry).
+    #[cfg(grevm_verif)]
+    fn verif_mv_read(&self, location: &LocationAndType, version: &ReadVersion) {
+        let (txid, incarnation, estimate) = match version {
+            ReadVersion::MvMemory(v) => (
+                v.txid as i64,
+                v.incarnation as i64,
+                self.blocking_txs.contains(&v.txid) as i64,
+            ),
+            _ => (crate::verif::NONE, crate::verif::NONE, 0),
+        };
+        crate::verif::p5(
+            "mv_read",
+            self.version.txid as i64,
+            crate::verif::loc_id(location),
+            txid,
+            incarnation,
+            estimate,
+        );
+    }
+
+    /// Report one backing-store read (verification hook).
+    #[cfg(grevm_verif)]
+    fn verif_base_read(&self, location: &LocationAndType, digest: String) {
+        crate::verif::p3(
+            "base_read",
+            self.version.txid as i64,
+            crate::verif::loc_id(location),
+            crate::verif::intern(digest),
+        );
     }
 
     fn code_by_address(
@@ -235,9 +278,13 @@ where
             }
             read_version = ReadVersion::MvMemory(TxVersion::new(txid, entry.incarnation));
         }
+        #[cfg(grevm_verif)]
+        self.verif_mv_read(&location, &read_version);
         // 2. read from database
         if result.is_none() {
             let byte_code = self.backing_db.code_by_hash_ref(code_hash)?;
+            #[cfg(grevm_verif)]
+            self.verif_base_read(&location, format!("code:{:x}", byte_code.hash_slow()));
             result = Some(byte_code);
         }
 
@@ -259,6 +306,13 @@ where
             match self.beneficiary.resolve_before(self.version.txid) {
                 Ok(read) => {
                     let (account, version) = read.into_parts();
+                    #[cfg(grevm_verif)]
+                    crate::verif::p3(
+                        "ben_resolve",
+                        self.version.txid as i64,
+                        1,
+                        crate::verif::intern(crate::verif::info_digest(account.as_ref())),
+                    );
                     result = account;
                     self.read_set.insert(location, ReadVersion::Beneficiary(version));
                     if let Some(info) = &result {
@@ -266,6 +320,8 @@ where
                     }
                 }
                 Err(blocker) => {
+                    #[cfg(grevm_verif)]
+                    crate::verif::p3("ben_resolve", self.version.txid as i64, 0, blocker as i64);
                     self.blocking_txs.insert(blocker);
                     self.blocked_by_beneficiary = true;
                     // This incarnation will be discarded. Absence lets the EVM finish without
@@ -289,9 +345,13 @@ where
                 }
                 read_version = ReadVersion::MvMemory(TxVersion::new(txid, entry.incarnation));
             }
+            #[cfg(grevm_verif)]
+            self.verif_mv_read(&location, &read_version);
             // 2. read from database
             if matches!(read_version, ReadVersion::Storage) {
                 result = self.backing_db.basic_ref(address)?;
+                #[cfg(grevm_verif)]
+                self.verif_base_read(&location, crate::verif::info_digest(result.as_ref()));
                 read_account = result.as_ref().map(AccountBasic::from);
             }
             if let Some(read_account) = read_account {
@@ -327,6 +387,8 @@ where
             }
             reset_version = ReadVersion::MvMemory(TxVersion::new(txid, entry.incarnation));
         }
+        #[cfg(grevm_verif)]
+        self.verif_mv_read(&reset_location, &reset_version);
         self.read_set.insert(reset_location, reset_version);
 
         let location = LocationAndType::Storage(address, index);
@@ -342,6 +404,10 @@ where
             slot_version = ReadVersion::MvMemory(TxVersion::new(txid, entry.incarnation));
             slot_write = Some((txid, value));
         }
+        #[cfg(grevm_verif)]
+        self.verif_mv_read(&location, &slot_version);
+        #[cfg(grevm_verif)]
+        let verif_location = location.clone();
         self.read_set.insert(location, slot_version);
 
         if let Some((slot_txid, value)) = slot_write &&
@@ -352,6 +418,15 @@ where
         if reset_txid.is_some() {
             return Ok(U256::ZERO);
         }
+        #[cfg(grevm_verif)]
+        {
+            let value = self.backing_db.storage_ref(address, index);
+            if let Ok(value) = &value {
+                self.verif_base_read(&verif_location, format!("u:{value:x}"));
+            }
+            return value;
+        }
+        #[cfg(not(grevm_verif))]
         self.backing_db.storage_ref(address, index)
     }
 
